@@ -402,7 +402,9 @@ def api_bases(i):
     return A.HplQuantifier('forall', 'i', f, A.HplBinaryOperator('=', A.HplVarReference('@i'), v)), 'forall i in fld: @i = @v'
 
 
-TWIN_BUILDERS = ['x', '@A.x', '@v', 'xs[0]', 'xs[@i]', 'm.f', 'x + y', '{x, 1}', '[0 to x]', 'abs(x)', 'not p', 'forall i in xs: @i > x', '1', '"a"']
+TWIN_BUILDERS = ['x', '@A.x', '@v', 'xs[0]', 'xs[@i]', 'm.f', 'x + y', '{x, 1}', '[0 to x]', 'abs(x)', 'not p', 'forall i in xs: @i > x', '1', '"a"',
+                 ('pred', '{ x > 0 and (p or @A.q) }'), ('pred', '{ not (p implies forall i in xs: @i > 0) }'),
+                 ('prop', 'after s as A: (b or c {x > @A.x}) causes d within 1 s'), ('prop', 'globally: no (a {p} or b as B)'), ('prop', 'after (s1 or s2) until e: (t1 or t2) requires u')]
 
 
 def twins(i, r):
@@ -412,15 +414,36 @@ def twins(i, r):
     import hpl.ast as A
 
     text = TWIN_BUILDERS[i]
+    kind = 'expr'
+    if isinstance(text, tuple):
+        kind, text = text
     problems = []
 
     def fresh(tag):
         # a parse of its own: on the unchanged tree no object is shared with anything built before
-        n = impl.parser('expr').parse(text)
+        n = impl.parser(kind).parse(text)
         n.metadata['src'] = tag
+        if kind == 'prop':
+            n.metadata['id'] = 'id_' + tag
         return n
 
+    def menu_other(n):
+        import hpl.rewrite as R
+
+        if kind == 'pred':
+            other = impl.parser('pred').parse('{ y > 1 }')
+            return [('negate', lambda: n.negate()), ('join', lambda: n.join(other)), ('join (reversed)', lambda: other.join(n)), ('simplify', lambda: R.simplify(n)), ('split_and', lambda: R.split_and(n)),
+                    ('refactor_reference', lambda: R.refactor_reference(n, 'A')), ('replace_this_with_var', lambda: R.replace_this_with_var(n, 'Z')), ('replace_var_with_this', lambda: R.replace_var_with_this(n, 'A')),
+                    ('event from predicate', lambda: A.HplSimpleEvent.publish('t', predicate=n, alias='Q')), ('str', lambda: str(n)), ('hash', lambda: hash(n))]
+        scope, pattern = n.scope, n.pattern
+        return [('canonical_form', lambda: R.canonical_form(n)), ('but(scope)', lambda: n.but(scope=A.HplScope.globally())),
+                ('but(pattern)', lambda: n.but(pattern=A.HplPattern.absence(A.HplSimpleEvent.publish('zz')))), ('sanity_check', lambda: n.sanity_check()), ('events', lambda: list(n.events())),
+                ('is_fully_typed', lambda: n.is_fully_typed()), ('str', lambda: str(n)), ('hash', lambda: hash(n)), ('pattern.but(max_time)', lambda: pattern.but(max_time=9.0)),
+                ('scope.but(activator)', lambda: scope.but(activator=A.HplSimpleEvent.publish('zz')) if scope.activator is not None else None)]
+
     def menu(n):
+        if kind != 'expr':
+            return menu_other(n)
         ops = [(f'cast({name})', lambda t=t: n.cast(t)) for name, t in _cast_types()]
         one = A.HplLiteral('1', 1)
         ops += [
@@ -429,7 +452,7 @@ def twins(i, r):
             ('HplBinaryOperator(and, n, n)', lambda: A.HplBinaryOperator('and', n, n)), ('HplSet((n, 1))', lambda: A.HplSet((n, one))), ('HplRange(1, n)', lambda: A.HplRange(one, n)),
             ('HplArrayAccess(n, 1)', lambda: A.HplArrayAccess(n, one)), ('HplFieldAccess(n, f)', lambda: A.HplFieldAccess(n, 'f')), ('HplFunctionCall(len, n)', lambda: A.HplFunctionCall('len', (n,))),
             ('HplFunctionCall(abs, n)', lambda: A.HplFunctionCall('abs', (n,))), ('HplQuantifier(forall i in n)', lambda: A.HplQuantifier('forall', 'i', n, A.HplBinaryOperator('>', A.HplVarReference('@i'), one))),
-            ('predicate_from_expression(n)', lambda: A.predicate_from_expression(n)), ('but(metadata)', lambda: n.but(metadata={'fresh': 1})),
+            ('predicate_from_expression(n)', lambda: A.predicate_from_expression(n)), ('reshape(identity)', lambda: n.reshape(lambda e: e, deep=True)),
         ]
         return ops
 
@@ -517,7 +540,7 @@ def run(unit):
         r.count('evaluations')
         for p in twins(unit[2], r):
             probs.append((p, {'twins': unit[2]}, 3))
-        r.sample({'twins': TWIN_BUILDERS[unit[2]]})
+        r.sample({'twins': str(TWIN_BUILDERS[unit[2]])})
     else:
         r.count('evaluations')
         obj, label = api_bases(unit[2])
@@ -551,7 +574,7 @@ def replay(w):
 def describe(tier):
     b = bounds(tier)
     return {
-        'rule': f"bases: parser results for every Bool/Num term with <= {b['nodes']} nodes (as expression and predicate), a 29-text family aimed at rewrites that build new parents around existing children (aggregates over sets, implications, negated disjunctions, quantifier splitting, operand flipping), 5 annotated properties, 6 API-built nodes around deliberately untyped shared children. Pool = base + up to 13 sub-objects + objects returned by earlier calls. Alphabet: ~45 calls per expression (printers, hash/==, children/iterate, 4 reference queries, is_fully_typed, cast to 12 type sets, but() same/changed per field, reshape, 2 replacements, simplify, split_and, refactor_reference, the this/var rewrites, constructors of every node class (operators, accessors, sets, ranges, function calls, quantifiers, predicates, events) around the object, schema check), predicate, event and property calls likewise. All sequences of <= {b['depth']} state-changing calls (family: {b['family_depth']}); plus histories of length 2 over twins (two equal, separately parsed nodes with different metadata, 14 node kinds): every ordered pair of 26 calls (12 casts, 13 constructors around the node, but(metadata)), the first on one twin and the second on the other; every call is followed by a deep snapshot comparison of every pool object.",
+        'rule': f"bases: parser results for every Bool/Num term with <= {b['nodes']} nodes (as expression and predicate), a 29-text family aimed at rewrites that build new parents around existing children (aggregates over sets, implications, negated disjunctions, quantifier splitting, operand flipping), 5 annotated properties, 6 API-built nodes around deliberately untyped shared children. Pool = base + up to 13 sub-objects + objects returned by earlier calls. Alphabet: ~45 calls per expression (printers, hash/==, children/iterate, 4 reference queries, is_fully_typed, cast to 12 type sets, but() same/changed per field, reshape, 2 replacements, simplify, split_and, refactor_reference, the this/var rewrites, constructors of every node class (operators, accessors, sets, ranges, function calls, quantifiers, predicates, events) around the object, schema check), predicate, event and property calls likewise. All sequences of <= {b['depth']} state-changing calls (family: {b['family_depth']}); plus histories of length 2 over twins (two equal, separately parsed objects with different metadata: 14 expression kinds, 2 predicates, 3 properties): every ordered pair of 26 calls (12 casts, 13 constructors around the node, reshape; predicates: 11 calls, properties: 10 calls), the first on one twin and the second on the other; every call is followed by a deep snapshot comparison of every pool object.",
         'bounds': b,
         'exhaustive': True,
         'assumptions': ['metadata is a mutable annotation by design: the harness itself writes one key before the first snapshot'],
